@@ -417,6 +417,11 @@ def time_now(I, args, ins):
     last = ctx.ghost.get('wallclock')
     if last is not None:
         ctx.add_inv(v >= last)
+        # the whole harness runs within a second of wall-clock time
+        ctx.add_inv(v <= ctx.ghost['wallclock0'] + NS)
+    else:
+        ctx.ghost['wallclock0'] = v
+        ctx.add_inv(v >= UNIX_TO_INTERNAL)
     ctx.ghost['wallclock'] = v
     return TimeV(v)
 
@@ -626,7 +631,7 @@ def bytes_newbuffer(I, args, ins):
     ctx = I.ctx
     p = ctx.alloc(I.prog.zero('bytes.Buffer') if 'bytes.Buffer' in I.prog.types else StructV([]), 'bytes.Buffer')
     ctx.ghost.setdefault('buffers', {})[(p.cell, p.path)] = [('bytes', I.slice_elems(args[0]))]
-    ctx.ghost.setdefault('readers', {})[p.cell] = ('buffer', p)
+    ctx.ghost.setdefault('readers', {})[p.cell] = ('bytes', ctx.force(args[0]))
     return p
 
 
